@@ -12,16 +12,18 @@
 EXTENDS Integers, Sequences, FiniteSets, TLC
 
 PaletteTypes == {"bool", "int8", "int16", "int32", "int64", "string", "[]byte", "*int", "any", "[3]int8",
-                 "struct{}", "[0]int64", "uint16", "float64"}
+                 "struct{}", "[0]int64", "uint16", "float64", "float32", "complex128", "[65536]byte", "uintptr"}
 
 LeafSize(t) == CASE t = "bool" -> 1 [] t = "int8" -> 1 [] t = "int16" -> 2 [] t = "int32" -> 4 [] t = "int64" -> 8
                  [] t = "string" -> 16 [] t = "[]byte" -> 24 [] t = "*int" -> 8 [] t = "any" -> 16
                  [] t = "[3]int8" -> 3 [] t = "struct{}" -> 0 [] t = "[0]int64" -> 0 [] t = "uint16" -> 2
-                 [] t = "float64" -> 8
+                 [] t = "float64" -> 8 [] t = "float32" -> 4 [] t = "complex128" -> 16 [] t = "[65536]byte" -> 65536
+                 [] t = "uintptr" -> 8
 LeafAlign(t) == CASE t = "bool" -> 1 [] t = "int8" -> 1 [] t = "int16" -> 2 [] t = "int32" -> 4 [] t = "int64" -> 8
                  [] t = "string" -> 8 [] t = "[]byte" -> 8 [] t = "*int" -> 8 [] t = "any" -> 8
                  [] t = "[3]int8" -> 1 [] t = "struct{}" -> 1 [] t = "[0]int64" -> 8 [] t = "uint16" -> 2
-                 [] t = "float64" -> 8
+                 [] t = "float64" -> 8 [] t = "float32" -> 4 [] t = "complex128" -> 8 [] t = "[65536]byte" -> 1
+                 [] t = "uintptr" -> 8
 \* how many distinguishable values the harness knows for a leaf type (value index 0 = the zero value)
 LeafVals(t) == CASE t = "bool" -> 2 [] t = "struct{}" -> 1 [] t = "[0]int64" -> 1 [] OTHER -> 3
 
@@ -71,6 +73,12 @@ LeafExtents(sh, base) ==
   UNION { LET f == sh[i] IN
           IF f.emb = "ptr" \/ IsLeaf(f) THEN {<<base + os[i], base + os[i] + FSize(f)>>}
           ELSE LeafExtents(f.sub, base + os[i]) : i \in 1..Len(sh) }
-Covered(sh) == UNION { e[1]..(e[2] - 1) : e \in LeafExtents(sh, 0) }
-HoleBytes(sh) == (0..(SSize(sh) - 1)) \ Covered(sh)
+\* a byte is padding when no leaf covers it
+HoleBytes(sh) == LET ex == LeafExtents(sh, 0)
+                     big == {e \in ex : e[2] - e[1] > 4096}        \* huge arrays: not enumerated byte by byte
+                     cand == UNION {IF e \in big THEN {} ELSE e[1]..(e[2] - 1) : e \in ex}
+                     rest == IF big = {} THEN 0..(SSize(sh) - 1)
+                             ELSE UNION {(lo)..(hi - 1) : <<lo, hi>> \in {<<a, b>> \in ({0} \cup {e[2] : e \in ex}) \X ({SSize(sh)} \cup {e[1] : e \in ex}) :
+                                                                       a <= b /\ b - a <= 64 /\ \A e \in ex : e[2] <= a \/ e[1] >= b \/ e[1] = e[2]}}
+                 IN {b \in rest : \A e \in ex : b < e[1] \/ b >= e[2]}
 ====
